@@ -230,7 +230,9 @@ class Enum(Node):
             if f > 0:
                 out += ["r.put(&[%s]);" % ds, "r.put(&[%s as u8]);" % rp] + put_opt_usize(sz is not None, sz) + put_opt_usize(al is not None, al)
             return out
-        return Inst(s, b, ref, e, [k for (_, _, fi) in vi for (_, _, k) in fi], {"dsize": ds, "repr": rp, "size": sz, "align": al, "variants": vi})
+        eb = "unsafe { SchemaEnum::new_unsafe(%s, %s, %s, %s, %s, %s) }" % (rs_str(s.name), vb(False), ds, rp, "Some(%s)" % sz if sz else "None", "Some(%s)" % al if al else "None")
+        ee = "unsafe { SchemaEnum::new_unsafe(%s, %s, 1, false, None, None) }" % (rs_str(s.name), vb(True))
+        return Inst(s, b, ref, e, [k for (_, _, fi) in vi for (_, _, k) in fi], {"dsize": ds, "repr": rp, "size": sz, "align": al, "variants": vi, "enum_build": eb, "enum_erased": ee, "enum_ref": (lambda f: ref(f)[1:])})
 
 
 class MethodD:
@@ -464,6 +466,7 @@ use crate::common::*;
 use crate::vt::*;
 use savefile::prelude::*;
 use savefile::{diff_schema, new_schema_deserializer, SchemaArray, VecOrStringLayout};
+use savefile::verif_schema_access::{diff_enum, enum_layout_compatible};
 
 pub fn layout_from(b: u8) -> VecOrStringLayout {
     match b {
@@ -498,6 +501,28 @@ pub fn schema_bytes(s: &Schema, f: u32) -> ([u8; 256], usize) {
         n = cur.position() as usize;
     }
     (buf, n)
+}
+/// SchemaEnum::serialize / deserialize on bare values (R17: a Schema::Enum wrapper defeats CBMC).
+pub fn enum_bytes(e: &SchemaEnum, f: u32) -> ([u8; 256], usize) {
+    let mut buf = [0u8; 256];
+    let n;
+    {
+        let mut cur = std::io::Cursor::new(&mut buf[..]);
+        {
+            let mut ser = Serializer::<Vec<u8>>::new_raw(&mut cur, f);
+            e.serialize(&mut ser).unwrap();
+        }
+        n = cur.position() as usize;
+    }
+    (buf, n)
+}
+pub fn enum_from(bytes: &[u8], f: u16) -> Result<(SchemaEnum, usize), SavefileError> {
+    let mut rd: &[u8] = bytes;
+    let s = {
+        let mut de = new_schema_deserializer(&mut rd, f);
+        SchemaEnum::deserialize(&mut de)?
+    };
+    Ok((s, rd.len()))
 }
 pub fn schema_from(bytes: &[u8], f: u16) -> Result<(Schema, usize), SavefileError> {
     let mut rd: &[u8] = bytes;
@@ -555,8 +580,48 @@ def emit():
     out = [HDR.replace("[u8; 256]", "[u8; REFCAP2]").replace("[0u8; 256]", "[0u8; REFCAP2]")]
     out.append("pub const REFCAP2: usize = 256;\npub struct RefBuf2 { pub b: [u8; REFCAP2], pub n: usize }\nimpl RefBuf2 {\n    pub fn new() -> RefBuf2 { RefBuf2 { b: [0u8; REFCAP2], n: 0 } }\n    #[inline(always)]\n    pub fn put(&mut self, bytes: &[u8]) { let l = bytes.len(); self.b[self.n..self.n + l].copy_from_slice(bytes); self.n += l; }\n}\n")
     cat = []
-    mods = {m: {"q": [], "t": [], "x": []} for m in ("c13s", "c13z", "c13d", "c11l", "c06s")}
+    mods = {m: {"q": [], "t": [], "x": []} for m in ("c13s", "c13z", "c13d", "c11l", "c06s", "c13e", "c11e")}
     for (tier, name, node) in S:
+        if isinstance(node, Enum) and not any(isinstance(c, (Enum, Struct)) for ch in node.children() for c in walk(ch)):
+            uwe = unwind_for(node)
+            for f in (1, 2):
+                ctx = Ctx("a"); i = node.inst(ctx)
+                body = ctx.decls() + ["let e: SchemaEnum = %s;" % i.data["enum_build"], "let mut r = RefBuf2::new();"] + i.data["enum_ref"](f)
+                body += ["let (buf, n) = enum_bytes(&e, %d);" % f,
+                         'assert!(n == r.n, "C13: enum schema node length differs from the reference layout");',
+                         "let i: usize = kani::any(); kani::assume(i < r.n);",
+                         'assert!(buf[i] == r.b[i], "C13: enum schema node byte differs from the reference layout");',
+                         "let (e2, left) = enum_from(&r.b[..r.n], %d).unwrap();" % f,
+                         'assert!(left == 0, "C13: enum schema reader did not consume the whole node");',
+                         'assert!(crate::scmp::enum_same(&e2, &e), "C13: enum schema node read back differs from the one written");',
+                         "std::mem::forget(e); std::mem::forget(e2);", 'kani::cover!(true, "reached end");']
+                mods["c13e"][tier].append("kproof!(%s_f%d, %d, {\n        %s\n    });" % (name, f, uwe, "\n        ".join(body)))
+            ctx = Ctx("a"); i = node.inst(ctx)
+            body = ctx.decls() + ["let mut r = RefBuf2::new();"] + i.data["enum_ref"](0)
+            body += ["let (e2, left) = enum_from(&r.b[..r.n], 0).unwrap();", 'assert!(left == 0, "C13: format-0 enum schema reader did not consume the whole node");',
+                     "let expect: SchemaEnum = %s;" % i.data["enum_erased"],
+                     'assert!(crate::scmp::enum_same(&e2, &expect), "C13: format-0 enum schema node decodes to a different schema");',
+                     "std::mem::forget(e2); std::mem::forget(expect);", 'kani::cover!(true, "reached end");']
+            mods["c13e"][tier].append("kproof!(%s_f0, %d, {\n        %s\n    });" % (name, uwe, "\n        ".join(body)))
+            pairs = [("pair", node)] + [("edit_" + l, en) for (l, en) in edits(node)]
+            for (label, other) in pairs:
+                ca, cb = Ctx("a"), Ctx("b")
+                ia, ib = node.inst(ca), other.inst(cb)
+                w, le = wire_eq(ia, ib), layout_eq(ia, ib)
+                body = ca.decls() + cb.decls() + ["let ea: SchemaEnum = %s;" % ia.data["enum_build"], "let eb: SchemaEnum = %s;" % ib.data["enum_build"]]
+                body += ["let d1 = diff_enum(&ea, &eb, String::new());", "let d2 = diff_enum(&eb, &ea, String::new());", "let expect_same: bool = %s;" % w,
+                         'assert!(d1.is_none() == expect_same, "C13: enum comparison verdict differs from the wire-layout oracle (memory, file)");',
+                         'assert!(d2.is_none() == expect_same, "C13: enum comparison verdict differs from the wire-layout oracle (file, memory)");',
+                         "std::mem::forget(d1); std::mem::forget(d2); std::mem::forget(ea); std::mem::forget(eb);", 'kani::cover!(true, "reached end");']
+                mods["c13e"][tier].append("kproof!(%s_diff_%s, %d, {\n        %s\n    });" % (name, label, uwe, "\n        ".join(body)))
+                body = ca.decls() + cb.decls() + ["let ea: SchemaEnum = %s;" % ia.data["enum_build"], "let eb: SchemaEnum = %s;" % ib.data["enum_build"]]
+                body += ["let c1 = enum_layout_compatible(&ea, &eb);", "let c2 = enum_layout_compatible(&eb, &ea);", "let identical: bool = %s;" % le,
+                         'assert!(!c1 || identical, "C11: enum layout_compatible accepts layouts that are not provably identical");',
+                         'assert!(!c2 || identical, "C11: enum layout_compatible accepts layouts that are not provably identical (swapped)");']
+                if label == "pair" and le != FALSE:
+                    body.append('kani::cover!(c1, "some assignment of the leaves is accepted as compatible");')
+                body += ["std::mem::forget(ea); std::mem::forget(eb);", 'kani::cover!(true, "reached end");']
+                mods["c11e"][tier].append("kproof!(%s_lc_%s, %d, {\n        %s\n    });" % (name, label, uwe, "\n        ".join(body)))
         cat.append({"shape": name, "tier": ("x (out of reach)" if heavy(node) else tier), "desc": node.desc(), "nodes": node.size()})
         uw = unwind_for(node)
         # ---- C13 (a)+(b): write == reference bytes, read(reference) == schema, f in {1,2}
